@@ -289,36 +289,40 @@ End Stream.
 
 (* ---- formatSI / formatIEC, LogStream.cc:102-203, in exact integer arithmetic ---- *)
 
-(* static_cast<double>(s) for 0 <= s: round to nearest even at 53 bits; the result is an integer *)
-Definition rhe (q r den : Z) : Z :=          (* q + r/den rounded half-even, 0 <= r < den *)
+(* q + r/den rounded to the nearest integer, ties to even (0 <= r < den) *)
+Definition rhe (q r den : Z) : Z :=
   if 2 * r <? den then q
   else if den <? 2 * r then q + 1
   else if Z.even q then q else q + 1.
 
+(* the rational num/den (den > 0) rounded to the nearest integer, ties to even: the one rounding
+   primitive of this section (IEEE-754 roundTiesToEven on a scaled significand, and printf's
+   correctly rounded %.<p>f) *)
+Definition rne (num den : Z) : Z := rhe (num / den) (num mod den) den.
+
+(* static_cast<double>(s) for 0 <= s: exact below 2^53; otherwise the significand s / 2^e with
+   e = floor(log2 s) - 52 is rounded to 53 bits.  The result is an integer. *)
 Definition to_double (s : Z) : Z :=
   if s <? 2 ^ 53 then s
-  else let e := Z.log2 s - 52 in
-       let p := 2 ^ e in
-       rhe (s / p) (s mod p) p * p.
+  else let p := 2 ^ (Z.log2 s - 52) in rne s p * p.
 
-(* IEEE binary64 quotient a / b of two positive integers-valued doubles (normal range):
-   the result is m * 2^e *)
+(* IEEE binary64 quotient a / b of two positive integers (normal range, no overflow/underflow:
+   the operands are below 2^64): the result is m * 2^e with 2^52 <= m <= 2^53.
+   a'/b' = (a/b) * 2^k lies in (2^52, 2^54); one more bit is dropped when it is not below 2^53. *)
 Definition div_double (a b : Z) : Z * Z :=
   if a <=? 0 then (0, 0) else
   let k := 53 + Z.log2 b - Z.log2 a in
   let a' := if 0 <=? k then a * 2 ^ k else a in
   let b' := if 0 <=? k then b else b * 2 ^ (- k) in
-  let q := a' / b' in
-  let r := a' mod b' in
-  if q <? 2 ^ 53 then (rhe q r b', - k)
-  else (* 54 bits: drop one *) (rhe (q / 2) ((q mod 2) * b' + r) (2 * b'), 1 - k).
+  if a' <? 2 ^ 53 * b' then (rne a' b', - k) else (rne a' (2 * b'), 1 - k).
 
-(* printf "%.<p>f" of x = m * 2^e >= 0: the exact value rounded half-even to p decimals *)
+(* printf "%.<p>f" of x = m * 2^e >= 0: the exact value rounded half-even to p decimals, as the
+   integer x * 10^p rounded (glibc rounds the exact binary value correctly, in the current rounding
+   mode = to nearest even) *)
 Definition fixed_scaled (p : Z) (x : Z * Z) : Z :=
   let '(m, e) := x in
   let num := m * 10 ^ p in
-  if 0 <=? e then num * 2 ^ e
-  else let den := 2 ^ (- e) in rhe (num / den) (num mod den) den.
+  if 0 <=? e then num * 2 ^ e else rne num (2 ^ (- e)).
 
 Definition fixed_text (p : Z) (x : Z * Z) : list byte :=
   let k := fixed_scaled p x in
